@@ -86,8 +86,10 @@ WITNESS(should_enable);
 
 int c_should_enable(int have[3], struct model_spec *spec, struct thread *t)
 __CPROVER_requires(__CPROVER_is_fresh(have, 3 * sizeof(int)))
-__CPROVER_requires(__CPROVER_is_fresh(spec, sizeof(*spec)))
-__CPROVER_requires(__CPROVER_is_fresh(t, sizeof(*t)))
+/* spec and t are only read: validity is enough (struct thread is 32 KB; a harness-owned
+ * object keeps it field-wise where an is_fresh object is a 32 KB byte array) */
+__CPROVER_requires(__CPROVER_r_ok(spec, sizeof(*spec)))
+__CPROVER_requires(__CPROVER_r_ok(t, sizeof(*t)))
 __CPROVER_requires(META_SHAPE(t, spec))
 __CPROVER_requires(DIAG_PRE_MID)
 __CPROVER_requires(WBIND(should_enable, SE_BIND(have, t)))
@@ -100,11 +102,14 @@ __CPROVER_ensures(g_err >= __CPROVER_old(g_err) && g_err - __CPROVER_old(g_err) 
 	g_diag >= __CPROVER_old(g_diag) && g_diag - __CPROVER_old(g_diag) <= 2u && g_warn == __CPROVER_old(g_warn))
 ;
 
+static struct model_spec h_spec;
+static struct thread h_t1, h_t2, h_t3;
+
 void h_should_enable(void)
 {
 	int *have;
-	struct model_spec *spec;
-	struct thread *t;
+	struct model_spec *spec = &h_spec;
+	struct thread *t = &h_t1;
 	WITNESS_ON(should_enable);
 	WITNESS_OFF(version_parse);
 	WITNESS_OFF(version_is_compatible);
